@@ -8,7 +8,7 @@ import checks as CH
 NA = {
     "C08": "SQLite executes the SQL (C code behind cgo): deciding 'same result as a relational model' would need a model of SQL, not an encoding of gluon; the encodable necessary condition (statement well-formedness/binding/chunking) is checked under C03 and is not offered as a decision of C08",
     "C09": "AES-GCM sealing, LZ4 framing, file I/O and io.Pipe goroutines: loops over whole contents with no separable arithmetic kernel; symbolic crypto/compression is out of reach of bit-blasting and reader/writer concurrency is not encodable by a sequential executor",
-    "C19": "data races, deadlocks and goroutine leaks quantify over scheduler interleavings and the Go memory model; the engine executes one goroutine and has no model of the scheduler, so it cannot decide them",
+    "C19": "data races, lock-order inversions and goroutine leaks quantify over every scheduler interleaving and the Go memory model; the engine's goroutine model is cooperative (control changes hands only at blocking operations, every other goroutine runs to quiescence), which is enough to run the queue and the IDLE sender from their real code and to see dead-locks and leaks on those schedules (C02 queue, C01 idle harnesses), but it explores no pre-emptive interleaving and has no memory model, so it cannot decide the absence of races or dead-locks",
 }
 PENDING = "check not built yet in this round (see DESIGN.md section 4 for the planned harness)"
 
